@@ -237,13 +237,18 @@ type c17Run struct {
 	lcalls  int64
 	tlMode  string
 	nsrc    int
-	dead    bool // a restore or its listeners hang: the database must not be touched any more
+	srcOf   map[string]string // snapshot bytes (length:hash) -> the file they were handed in as (flavour f)
+	dead    bool              // a restore or its listeners hang: the database must not be touched any more
 	// snapshot paths (c17_paths.go)
 	dbPath string   // the path the database was opened with (absolute or relative to the history's directory)
 	ptpls  []string // templates used so far
 	// metadata calls made by the reader of a restore (c17_meta.go)
 	mcalls int64
 	mlog   *c17mLog
+	// listeners that wait, snapshots inside an old read transaction (c17_view.go)
+	lgen  *c17vGen
+	vSeen string // what the read transaction saw right before SnapshotInTx
+	vTx   string // what the other goroutine's transaction reported
 }
 
 func newC17Run(stats map[string]int) (*c17Run, error) {
@@ -452,6 +457,8 @@ func (h *c17Run) snapCall(path, kind string, commit bool, before, after []c17Wop
 			actual, id, e = h.db.SnapshotInTx(tx, path)
 			return e
 		})
+	case "stale":
+		actual, id, err = h.c17vSnapStale(path, before, commit)
 	case "upd":
 		var snapErr error
 		_ = h.db.Update(nil, func(ctx boltz.MutateContext) error {
@@ -485,6 +492,9 @@ func c17SnapKindTok(kind string, commit bool, before, after []c17Wop) string {
 	if kind == "upd" {
 		return fmt.Sprintf("upd %d %s %s", b2i(commit), c17Wops(before), c17Wops(after))
 	}
+	if kind == "stale" {
+		return fmt.Sprintf("stale %d %s", b2i(commit), c17Wops(before))
+	}
 	return kind
 }
 
@@ -506,7 +516,11 @@ func (h *c17Run) opSnap(kind string, commit bool, before, after []c17Wop) {
 		h.emit(caseTok, "snap unreadable:"+hxs(ferr.Error()))
 		return
 	}
-	h.emit(caseTok, "snap "+hxs(h.ids[id])+" F["+c17Dump(content, h.ids)+"]")
+	extra := ""
+	if kind == "stale" {
+		extra = " V[" + h.vSeen + "] T[" + h.vTx + "]"
+	}
+	h.emit(caseTok, "snap "+hxs(h.ids[id])+" F["+c17Dump(content, h.ids)+"]"+extra)
 }
 
 func (h *c17Run) opStream() {
@@ -696,6 +710,11 @@ func (h *c17Run) genOp(r *rng) {
 }
 
 func (h *c17Run) genSnap(r *rng) {
+	if r.chance(20) {
+		// SnapshotInTx inside a read transaction that was opened before another goroutine committed
+		h.opSnap("stale", !r.chance(12), c17GenWops(r, 3), nil)
+		return
+	}
 	if r.chance(45) && h.genSnapPath(r) {
 		return
 	}
@@ -863,6 +882,9 @@ func (h *c17Run) replay(line string) {
 				before := t.wops()
 				after := t.wops()
 				h.opSnap("upd", commit, before, after)
+			case "stale":
+				commit := t.int() == 1
+				h.opSnap("stale", commit, t.wops(), nil)
 			default:
 				h.opSnap(kind, true, nil, nil)
 			}
@@ -893,6 +915,10 @@ func (h *c17Run) replay(line string) {
 			h.opAddDbListener(c17xBody{kind: "t", mode: t.next()})
 		case "addlw":
 			h.opAddDbListener(c17xBody{kind: "w", key: unhx(t.next())})
+		case "addlb":
+			h.opAddDbListener(c17xBody{kind: "b"})
+		case "addld":
+			h.opAddDbListener(c17xBody{kind: "d", dep: t.int()})
 		case "restorer":
 			k, sc := c17xParseScript(t)
 			h.opRestoreReader(k, sc)
@@ -985,7 +1011,9 @@ func runC17(o *opts) error {
 		if i%4 == 1 {
 			h.opOpen(r.pick(c17pOpenModes)) // the database file somewhere else / opened through a relative path
 		}
-		if i%8 == 5 {
+		if i%8 == 1 {
+			h.genViewSweep(r) // listeners that wait for each other, snapshots inside old read transactions (c17_view.go)
+		} else if i%8 == 5 {
 			h.genReaderSweep(r)
 		} else if i%8 == 7 {
 			h.genMetaSweep(r)
